@@ -401,6 +401,11 @@ impl LatexExportState
         {
             return Err(crate::error::Error::InvalidQBit(bit));
         }
+        if qbits.is_empty()
+        {
+            // A barrier on no qubits at all has nothing to draw
+            return Ok(());
+        }
 
         let ranges = crate::support::get_ranges(qbits);
 
